@@ -10,6 +10,7 @@ from z3 import *
 from pyvc.core import *
 
 PROPS = ['C01', 'C02', 'C03', 'C06', 'C07', 'C10']
+REPLAY = {'driver': 'callback'}
 REL = 'taskiq/receiver/receiver.py'
 TRUSTED = [
     "broker.formatter.loads / TaskiqMessage.parse_labels: return or raise any Exception (never BaseException)",
